@@ -95,6 +95,11 @@ func ZZ_C20_params() {
 	nsel := zzParam("W", 2)
 	picks := make([]int, nsel)
 	for i := range picks {
+		if i >= 2 {
+			// a third (and later) selection comes from the core items: the full cube is ~10^5 documents
+			picks[i] = zzRootMenuCore[zzChoice("pick"+zzItoa(i), len(zzRootMenuCore))]
+			continue
+		}
 		picks[i] = zzChoice("pick"+zzItoa(i), len(zzRootMenu))
 	}
 	text := zzBuildDoc(picks)
@@ -123,7 +128,17 @@ func ZZ_C20_params() {
 	}
 	plan, err := PlanQuery(&schema, doc, "")
 	zzAssert(err == nil && plan != nil, "PlanQuery failed on a valid document")
-	mutateArgs := zzChoice("mutate", 2) == 1
+	mode := zzChoice("mutate", 3) // 0 plain, 1 a resolver scribbles on its arguments, 2 object fields below the root defer their result
+	mutateArgs := mode == 1
+	if mode == 2 {
+		w.hook = func(parent, field string, p ResolveParams) (interface{}, error, bool) {
+			if parent == "Obj" && (field == "o" || field == "n") {
+				def, _ := w.defaultResolve(parent, zzFieldSpecOf(zzTypeSpecOf(parent), field), p)
+				return func() (interface{}, error) { return def, nil }, nil, true
+			}
+			return nil, nil, false
+		}
+	}
 	if mutateArgs {
 		// a resolver that scribbles on the argument map it was given
 		w.hook = func(parent, field string, p ResolveParams) (interface{}, error, bool) {
@@ -132,6 +147,18 @@ func ZZ_C20_params() {
 				p.Args["v"] = 999
 				p.Args["junk"] = true
 				return v, nil, true
+			}
+			// ... and on the nested values inside it
+			if parent == "Query" && field == "io" {
+				if in, ok := p.Args["in"].(map[string]interface{}); ok {
+					in["b"] = "scribbled"
+					in["junk"] = 1
+				}
+			}
+			if parent == "Query" && field == "li" {
+				if l, ok := p.Args["l"].([]interface{}); ok && len(l) > 0 {
+					l[0] = 999
+				}
 			}
 			return nil, nil, false
 		}
